@@ -94,7 +94,8 @@ def child_inherits(ctx):
                 root = deref(cfg, node, base.value.value)
                 okb = is_name(root, u.params[2])
             ctx.ob(ok and okb, u, 'the child\'s %s is copied from the parent frame\'s own map: %s' % (kk, norm(v)), node=v)
-    ctx.require(found == 2, '_glom: MODE / MIN_MODE not both initialised in the child frame (%d)' % found)
+    ctx.ob(found == 2, u, 'every child frame records its own MODE and MIN_MODE (the mode it was created in survives a later '
+           'reset of the parent\'s)', '' if found == 2 else 'the frame display initialises %d of the two keys' % found, node=d)
     # tombstone: T specs and glomit specs clear MIN_MODE in the child before dispatch
     tomb = [n for n in u.own_nodes() if isinstance(n, ast.Assign) and isinstance(n.targets[0], ast.Subscript)
             and p.scope_key(u, n.targets[0].slice) == 'core.MIN_MODE']
